@@ -169,8 +169,12 @@ MEM = Stage(
 
 CONC = Stage(
     family="conc",
-    mc={"quick": [("Conc.tla", "MC_Conc.cfg", "pass"), ("Conc.tla", "MC_Conc_neg.cfg", "fail")],
-        "thorough": [("Conc.tla", "MC_Conc_t.cfg", "pass"), ("Conc.tla", "MC_Conc_neg.cfg", "fail")]},
+    mc={"quick": [("Conc.tla", "MC_Conc.cfg", "pass"), ("Conc.tla", "MC_Conc_static.cfg", "pass"),
+                  ("Conc.tla", "MC_Conc_neg.cfg", "fail"), ("Conc.tla", "MC_Conc_neg_residue.cfg", "fail"),
+                  ("Conc.tla", "MC_Conc_neg_lazy.cfg", "fail")],
+        "thorough": [("Conc.tla", "MC_Conc_t.cfg", "pass"), ("Conc.tla", "MC_Conc_static.cfg", "pass"),
+                     ("Conc.tla", "MC_Conc_neg.cfg", "fail"), ("Conc.tla", "MC_Conc_neg_residue.cfg", "fail"),
+                     ("Conc.tla", "MC_Conc_neg_lazy.cfg", "fail")]},
     parts={"quick": [("", 2)], "thorough": [("", 4)]},
     trace=("Trace_Conc.tla", "Trace_Conc.cfg"),
     nontrivial=lambda e: e.get("ev") in ("Par", "End"),
@@ -558,4 +562,4 @@ CHECKS = {
 # properties without a check yet (reason shown in MANIFEST.not_applicable)
 NOT_CLAIMED = {}
 # commits in /repo that add verif-tagged hooks
-HOOK_COMMITS = ["4ecfaca"]
+HOOK_COMMITS = ["4ecfaca", "eb3717b", "d2740bb"]
